@@ -18,12 +18,13 @@ ASSUMPTIONS = [
     "rules judged: md001 md004 md009 md010 md012 md013 md019 md023 md025 md026 md031 md035 md040 md041 md042 md045 md046 md047 md048",
 ]
 N_Z1 = 5097
-N_Z3 = 24000
-N_CASES = N_Z1 + N_Z3
+N_Z3 = 14000
+N_Z7 = 30000
+N_CASES = N_Z1 + N_Z3 + N_Z7
 
 
 def universe_hash():
-    return U.content_hash()
+    return PL.hash_ab()
 
 
 def plan(tier, seed, complete=False):
@@ -33,10 +34,10 @@ def plan(tier, seed, complete=False):
         from vf.prng import R, mix
 
         r = R(mix("C06", seed))
-        idx = sorted(set(r.sample(N_Z1, 900)) | {N_Z1 + k for k in r.sample(N_Z3, 1300)})
+        idx = sorted(set(r.sample(N_Z1, 700)) | {N_Z1 + k for k in r.sample(N_Z3, 700)} | {N_Z1 + N_Z3 + k for k in r.sample(N_Z7, 900)})
     return {
         "items": [f"R:{i}" for i in idx],
-        "zones": {"corpus": {"universe": N_Z1}, "calm trees (every second one sprayed with long lines / trailing spaces / tabs / blank runs)": {"universe": N_Z3}, "run": {"documents": len(idx)}},
+        "zones": {"corpus": {"universe": N_Z1}, "rule-trigger documents (Z7)": {"universe": N_Z7}, "calm trees (every second one sprayed with long lines / trailing spaces / tabs / blank runs)": {"universe": N_Z3}, "run": {"documents": len(idx)}},
         "exhaustive": False,
         "rule": "document x rule (19 rules with a crisp documented condition) x that rule's documented configuration values (index-chosen subset per document); "
         "distinct = distinct (rule, configuration, document) triples in which the oracle demanded at least one report",
@@ -54,6 +55,8 @@ def replay_item(rp):
 def case_doc(i):
     if i < N_Z1:
         return U.doc("Z1", i)
+    if i >= N_Z1 + N_Z3:
+        return U.doc("Z7", i - N_Z1 - N_Z3)
     j = i - N_Z1
     # Z3 indices with i % 8 in (3, 7) are the sprayed ones: use them for every second document
     base = (j // 2) * 8 + (3 if j % 2 else 0) if j % 2 else j
